@@ -42,7 +42,15 @@ func notp(p func(smodel.Msg) bool) func(smodel.Msg) bool {
 }
 func cf(h, n string) bool { return strings.Contains(strings.ToLower(h), strings.ToLower(n)) }
 
-func genKey(t *rapid.T, depth int) key {
+// keyDomain gives the key generator the value ranges of the universe at hand.
+type keyDomain struct {
+	larger, smaller []int64
+	maxSeq, maxUID  int
+}
+
+var stubDomain = keyDomain{larger: []int64{1, 3, 5, 9}, smaller: []int64{1, 5, 7, 9, 11}, maxSeq: 200, maxUID: 2000}
+
+func genKey(t *rapid.T, depth int, dom keyDomain) key {
 	max := 21
 	if depth > 0 {
 		max = 24
@@ -65,10 +73,10 @@ func genKey(t *rapid.T, depth int) key {
 		f := rapid.SampledFrom([]string{"DELETED", "FLAGGED"}).Draw(t, "unsysflag")
 		return key{"UN" + f, notp(hasFlag("\\" + strings.ToLower(f)))}
 	case 7:
-		n := rapid.SampledFrom([]int64{1, 3, 5, 9}).Draw(t, "larger")
+		n := rapid.SampledFrom(dom.larger).Draw(t, "larger")
 		return key{fmt.Sprintf("LARGER %d", n), func(m smodel.Msg) bool { return m.Size > n }}
 	case 8:
-		n := rapid.SampledFrom([]int64{1, 5, 7, 9, 11}).Draw(t, "smaller")
+		n := rapid.SampledFrom(dom.smaller).Draw(t, "smaller")
 		return key{fmt.Sprintf("SMALLER %d", n), func(m smodel.Msg) bool { return m.Size < n }}
 	case 9:
 		d := rapid.IntRange(0, 3).Draw(t, "since")
@@ -105,21 +113,21 @@ func genKey(t *rapid.T, depth int) key {
 	case 19:
 		return key{"UNKEYWORD kw", notp(hasFlag("kw"))}
 	case 20:
-		a := rapid.IntRange(1, 200).Draw(t, "seqa")
-		b := a + rapid.IntRange(0, 100).Draw(t, "seqw")
+		a := rapid.IntRange(1, dom.maxSeq).Draw(t, "seqa")
+		b := a + rapid.IntRange(0, dom.maxSeq/2).Draw(t, "seqw")
 		return key{fmt.Sprintf("%d:%d", a, b), func(m smodel.Msg) bool { return int(m.Seq) >= a && int(m.Seq) <= b }}
 	case 21:
-		a := rapid.IntRange(1, 2000).Draw(t, "uida")
-		b := a + rapid.IntRange(0, 1000).Draw(t, "uidw")
+		a := rapid.IntRange(1, dom.maxUID).Draw(t, "uida")
+		b := a + rapid.IntRange(0, dom.maxUID/2).Draw(t, "uidw")
 		return key{fmt.Sprintf("UID %d:%d", a, b), func(m smodel.Msg) bool { return int(m.UID) >= a && int(m.UID) <= b }}
 	case 22:
-		k := genKey(t, depth-1)
+		k := genKey(t, depth-1, dom)
 		return key{"NOT " + k.text, notp(k.pred)}
 	case 23:
-		k1, k2 := genKey(t, depth-1), genKey(t, depth-1)
+		k1, k2 := genKey(t, depth-1, dom), genKey(t, depth-1, dom)
 		return key{"OR " + k1.text + " " + k2.text, func(m smodel.Msg) bool { return k1.pred(m) || k2.pred(m) }}
 	default:
-		k1, k2 := genKey(t, depth-1), genKey(t, depth-1)
+		k1, k2 := genKey(t, depth-1, dom), genKey(t, depth-1, dom)
 		return key{"(" + k1.text + " " + k2.text + ")", func(m smodel.Msg) bool { return k1.pred(m) && k2.pred(m) }}
 	}
 }
@@ -269,7 +277,7 @@ func TestPropSearchPermutations(t *testing.T) {
 		n := rapid.SampledFrom([]int{1, 2, 2, 3, 3, 3, 4, 4, 5}).Draw(t, "nkeys")
 		var keys []key
 		for i := 0; i < n; i++ {
-			keys = append(keys, genKey(t, 1))
+			keys = append(keys, genKey(t, 1, stubDomain))
 		}
 		perms, expectN := checkPermutations(t, keys)
 		ev.Eval()
